@@ -122,6 +122,11 @@ func buildC13(cfg *mon.Config) []*mon.Sub {
 					}
 				}
 				if kind == "expression" {
+					// identifiers that only look like keywords: the Kelvin sign is not a letter-case variant of K
+					for _, w := range []string{"LI\u212aE", "li\u212ae", "x\u212a", "ANDY", "NOTE", "INN", "ISO", "NULLS", "TRUEST", "ORB", "XORS", "FALSEHOOD", "A_AND", "_OR"} {
+						emit(kind + "\x00" + encLex([]lex{{tokenizers.Word, w}}))
+						emit(kind + "\x00" + encLex([]lex{{tokenizers.Integer, "1"}, sp, {tokenizers.Word, w}, sp, {tokenizers.Keyword, "and"}}))
+					}
 					for _, k := range exprKeywords {
 						for _, v := range []string{k, strings.ToLower(k), k[:1] + strings.ToLower(k[1:]), strings.ToLower(k[:1]) + k[1:]} {
 							emit(kind + "\x00" + encLex([]lex{{tokenizers.Keyword, v}}))
